@@ -221,7 +221,7 @@ let frames_family (dir : string) =
                | QSync -> "sync" | QIter -> "iter" | QOp -> "op") s.fifo) in
              let heap = String.concat "," (List.map zs s.heap) in
              let popped = String.concat "," (List.map zs s.popped) in
-             let ph = (match s.ph with Idle -> "idle" | Rendering (_, _, rows, n, pc, pu) ->
+             let ph = (match s.ph with Idle -> "idle" | Failed -> "failed" | Rendering (_, _, rows, n, pc, pu) ->
                Printf.sprintf "rendering(rows=%s,pop=%s,pushes=%d)" (zs n) (zs pc) (List.length pu)) in
              (* for a frame that differs from the model's: what differs *)
              let sub = (match e, s.outframes with
@@ -275,7 +275,9 @@ let frames_family (dir : string) =
          | "CT_DELAYEND", [] -> f CT_DELAYEND
          | "CT_RENDERBEGIN", [] -> f CT_RENDERBEGIN
          | "CT_RENDERSIZE", [w; h; _tty; _err] -> f (CT_RENDERSIZE (cz w, cz h))
-         | "CT_FLUSHBAR", [b; sh; nrows; rm; nopop; _err] -> f (CT_FLUSHBAR (bar_of b, cz sh, cz nrows, sb rm, sb nopop))
+         | "CT_FLUSHBAR", [b; sh; nrows; rm; nopop; err] -> f (CT_FLUSHBAR (bar_of b, cz sh, cz nrows, sb rm, sb nopop, sb err))
+         | "CT_RENDERERR", _ -> f CT_RENDERERR
+         | "FAULT", ["fill"; b; _] -> f (BAR_DRAWERR (bar_of b))
          | "CT_FRAME", [n; pc] -> f (CT_FRAME (cz n, cz pc))
          | "OUT", items -> incr nframes; f (OUT (List.concat_map parse_item items))
          | "CT_DONE", _ -> f CT_DONE
@@ -299,7 +301,7 @@ let frames_family (dir : string) =
          | ("CL_ADD" | "RET_ADD" | "RET_PRIO" | "RET_WRITE" | "CL_TICK" | "RET_TICK" | "CL_DELAYEND" | "CL_WAIT"
            | "RET_WAIT" | "LS_DONE" | "HM_ITER" | "HM_ITERDROP" | "HM_POPDROP" | "BAR_TRIGGER" | "EARLY_DECIDE"
            | "EARLY_REQ" | "EARLY_EXIT" | "WC_SENT" | "WC_GOT" | "DIST_COLLECTED" | "DIST_DROP" | "DIST_DONE"
-           | "DBG" | "END" | "CT_RENDERERR" | "OUTERR" | "SHUTDOWN" | "LEAK" | "FAULT" | "RET_SHUTDOWN"), _ -> ()
+           | "DBG" | "END" | "OUTERR" | "SHUTDOWN" | "LEAK" | "FAULT" | "RET_SHUTDOWN"), _ -> ()
          | _ -> failwith ("frames: unknown trace line: " ^ line))
     | [] -> ()
     | _ -> failwith ("bad line: " ^ line)) lines;
